@@ -56,6 +56,11 @@ theorem checkTxConflicts_errKind (mp : Pool) (t : Tx) (feer : Feer) {mp1 : Pool}
     | (rename_i e' he'; injection (Prod.mk.inj h).2 with h'; subst h'; exact Or.inr (checkBalance_errKind _ _ _ he'))
     | cases (Prod.mk.inj h).2
 
+/-- `x` and `t` cannot be pooled together: one names the other in a Conflicts attribute, or both answer the same
+oracle request -/
+def Related (t x : Tx) : Prop :=
+  t.id ∈ x.conflicts ∨ x.id ∈ t.conflicts ∨ (x.oracle = t.oracle ∧ t.oracle ≠ none)
+
 /-- Everything `Add` does on a pool that satisfies the invariant. -/
 theorem add_spec {U : Tx → Prop} (hw : WF U) {mp : Pool} (hi : Inv U mp) {t : Tx} (ht : U t) (feer : Feer)
     (hF : FeerOk feer) (d : Nat) :
@@ -67,7 +72,12 @@ theorem add_spec {U : Tx → Prop} (hw : WF U) {mp : Pool} (hi : Inv U mp) {t : 
       (∀ x ∈ mp.txs, x ∉ mp'.txs →
         t.id ∈ x.conflicts ∨ x.id ∈ t.conflicts ∨
         (x.oracle = t.oracle ∧ t.oracle ≠ none ∧ x.netFee < t.netFee) ∨
-        (mp'.txs.length = mp'.capacity ∧ (∀ y ∈ mp'.txs, ge y x) ∧ 0 < compare t x))) := by
+        (mp'.txs.length = mp'.capacity ∧ (∀ y ∈ mp'.txs, ge y x) ∧ 0 < compare t x)) ∧
+      -- the exact new list: `L` = the old list without the transactions related to `t`; `t` is inserted at its
+      -- index into `L`, after dropping the last item of `L` if `L` still fills the pool
+      (∃ L : List Tx, L.Sublist mp.txs ∧ (∀ x ∈ mp.txs, x ∈ L ↔ ¬ Related t x) ∧
+        mp'.txs = (if L.length = mp.capacity then L.dropLast else L).take (insertIdx L t) ++ [t] ++
+          (if L.length = mp.capacity then L.dropLast else L).drop (insertIdx L t))) := by
   unfold add
   by_cases hdup : (mp.vmap t.id).isSome = true
   · rw [if_pos hdup]
@@ -170,8 +180,29 @@ theorem add_spec {U : Tx → Prop} (hw : WF U) {mp : Pool} (hi : Inv U mp) {t : 
               rw [htx1] at t4'
               exact t4'
           · intro mp' h
-            obtain ⟨r1, r2, r3, r4, r5, r6, _⟩ := s2 mp' h
-            refine ⟨r1, by rw [r2, q3, p2, hco.2.2.2.2.1], by rw [r3, q4, p3, hco.2.2.2.2.2.1], r4, ?_, ?_⟩
+            obtain ⟨r1, r2, r3, r4, r5, r6, r7⟩ := s2 mp' h
+            have hgone : ∀ x ∈ mp.txs, x ∉ (removeAll (oracleStage mp1 t).1 rm).txs →
+                t.id ∈ x.conflicts ∨ x.id ∈ t.conflicts ∨ (x.oracle = t.oracle ∧ t.oracle ≠ none ∧ x.netFee < t.netFee) := by
+              intro x hx hx3
+              by_cases hx2 : x ∈ (oracleStage mp1 t).1.txs
+              · -- removed as a conflict
+                have : x ∈ rm := by
+                  rw [q2] at hx3
+                  have hc : (rm.map (·.id)).contains x.id = true := by
+                    cases hcc : (rm.map (·.id)).contains x.id with
+                    | true => rfl
+                    | false =>
+                      exfalso; apply hx3
+                      exact List.mem_filter.mpr ⟨hx2, by rw [hcc]; rfl⟩
+                  simp only [List.contains_eq_mem, List.mem_map, decide_eq_true_eq] at hc
+                  obtain ⟨c, hc1, hc2⟩ := hc
+                  have : c = x := hi.list.idEq hw (hrm1 c hc1) hx hc2
+                  subst this; exact hc1
+                rcases hrmrel x this with h' | h'
+                · exact Or.inl h'
+                · exact Or.inr (Or.inl h')
+              · exact Or.inr (Or.inr (p6 x (by rw [htx1]; exact hx) hx2))
+            refine ⟨r1, by rw [r2, q3, p2, hco.2.2.2.2.1], by rw [r3, q4, p3, hco.2.2.2.2.2.1], r4, ?_, ?_, ?_⟩
             · intro x hx
               rcases r5 x hx with h' | h'
               · exact Or.inl h'
@@ -185,24 +216,32 @@ theorem add_spec {U : Tx → Prop} (hw : WF U) {mp : Pool} (hi : Inv U mp) {t : 
                   rcases r5 y hy with h' | h'
                   · rw [h']; unfold ge; omega
                   · exact u2 y h'
-              · by_cases hx2 : x ∈ (oracleStage mp1 t).1.txs
-                · -- removed as a conflict
-                  have : x ∈ rm := by
-                    rw [q2] at hx3
-                    have hc : (rm.map (·.id)).contains x.id = true := by
-                      cases hcc : (rm.map (·.id)).contains x.id with
-                      | true => rfl
-                      | false =>
-                        exfalso; apply hx3
-                        exact List.mem_filter.mpr ⟨hx2, by rw [hcc]; rfl⟩
-                    simp only [List.contains_eq_mem, List.mem_map, decide_eq_true_eq] at hc
-                    obtain ⟨c, hc1, hc2⟩ := hc
-                    have : c = x := hi.list.idEq hw (hrm1 c hc1) hx hc2
-                    subst this; exact hc1
-                  rcases hrmrel x this with h' | h'
-                  · exact Or.inl h'
-                  · exact Or.inr (Or.inl h')
-                · exact Or.inr (Or.inr (Or.inl (p6 x (by rw [htx1]; exact hx) hx2)))
+              · rcases hgone x hx hx3 with h' | h' | h'
+                · exact Or.inl h'
+                · exact Or.inr (Or.inl h')
+                · exact Or.inr (Or.inr (Or.inl h'))
+            · refine ⟨(removeAll (oracleStage mp1 t).1 rm).txs, hsub3, ?_, ?_⟩
+              · intro x hx
+                constructor
+                · intro hx3 hrel
+                  rcases hrel with h' | h' | ⟨h1', h2'⟩
+                  · exact hnotrm x hx3 (hrm3 x hx h')
+                  · exact hnotrm x hx3 (hrm4 x hx h')
+                  · cases hto : t.oracle with
+                    | none => exact h2' hto
+                    | some i =>
+                      have hxo : x ∈ (oracleStage mp1 t).1.txs := by
+                        rw [q2] at hx3; exact (List.mem_filter.mp hx3).1
+                      exact p7 i hto x hxo (by rw [h1', hto])
+                · intro hnr
+                  apply Classical.byContradiction
+                  intro hx3
+                  rcases hgone x hx hx3 with h' | h' | ⟨h1', h2', _⟩
+                  · exact hnr (Or.inl h')
+                  · exact hnr (Or.inr (Or.inl h'))
+                  · exact hnr (Or.inr (Or.inr ⟨h1', h2'⟩))
+              · rw [q3, p2, hco.2.2.2.2.1] at r7
+                exact r7
         · have hf : (oracleStage mp1 t).2 = false := by
             cases h' : (oracleStage mp1 t).2 with
             | true => exact absurd h' hflag
